@@ -309,6 +309,21 @@ func (e *Exec) merge2(a, b *State) *State {
 	for k, va := range a.vars {
 		if vb, ok := b.vars[k]; ok {
 			n.vars[k] = e.mergeVal(c, va, vb, k.Name())
+		} else if kv, isVar := k.(*types.Var); isVar {
+			// a captured variable assigned on one path only: the other path still has its entry value
+			if cv, ok := e.capturedVal(kv); ok && e.isCaptured(kv) {
+				n.vars[k] = e.mergeVal(c, va, cv, k.Name())
+			}
+		}
+	}
+	for k, vb := range b.vars {
+		if _, ok := a.vars[k]; ok {
+			continue
+		}
+		if kv, isVar := k.(*types.Var); isVar {
+			if cv, ok := e.capturedVal(kv); ok && e.isCaptured(kv) {
+				n.vars[k] = e.mergeVal(c, cv, vb, k.Name())
+			}
 		}
 	}
 	for k, ha := range a.heaps {
